@@ -219,7 +219,27 @@ pub fn c07_extend_ref<const N: usize, const L: usize>() {
     vf::check(cnt == md.has(q) as usize, 203);
 }
 
+/// wider capacities on plain `Set<u8,N>`: one solver-chosen operation against the model set
+pub fn c07u_ops<const N: usize>() {
+    let (mut s, mut md) = any_u8_set::<N>();
+    let (op, k) = (vf::any_u8(), vf::any_u8());
+    vf::assume(op < 8);
+    match op {
+        0 => { vf::assume(md.n < N || md.has(k)); vf::reach(1); let was = md.has(k); md.insert(k, 0, 0, 0); vf::check(s.insert(k) == !was, 701); }
+        1 => { vf::assume(md.n < N || md.has(k)); let was = md.has(k); md.insert(k, 0, 0, 0); vf::check(s.replace(k) == if was { Some(k) } else { None }, 702); }
+        2 => { vf::reach(2); let was = md.remove(k).is_some(); vf::check(s.remove(&k) == was, 705); }
+        3 => { let was = md.remove(k).is_some(); vf::check(s.take(&k) == if was { Some(k) } else { None }, 706); }
+        4 => { vf::check(s.contains(&k) == md.has(k) && s.get(&k).copied() == if md.has(k) { Some(k) } else { None }, 703); }
+        5 => { s.retain(|x| keep(k, *x)); md.retain(k); }
+        6 => { let c = s.clone(); vf::check(c == s && c.len() == md.n && c.is_subset(&s) && s.is_superset(&c) && (md.n == 0 || !c.is_disjoint(&s)), 1502); }
+        _ => { let mut t = 0usize; let mut it = s.iter(); vf::check(it.len() == md.n, 601); while let Some(x) = it.next() { t += 1; vf::check(md.has(*x) && it.len() == md.n - t, 601); } vf::check(t == md.n && it.next().is_none(), 604); }
+    }
+    same_u8_set(&s, &md);
+    vf::check(s.len() <= s.capacity() && s.capacity() == N && s.is_empty() == (md.n == 0), 206);
+}
+
 harnesses! {
+    c07u_ops: [4] [6] [8];
     c07_insert: [1] [2] [3];
     c07_replace: [1] [2] [3];
     c07_lookup: [0] [1] [2] [3];
@@ -231,6 +251,7 @@ harnesses! {
     c07_extend: [1, 2] [2, 3] [3, 3];
     c07_extend_ref: [1, 2] [2, 3] [3, 3];
     @deep
+    c07u_ops: [10] [12];
     c07_insert: [4] [5];
     c07_replace: [4] [5];
     c07_lookup: [4] [5];
